@@ -4,10 +4,14 @@ catalogue and name-parsing code of `reading.py`:
 
   rx_key / parse_hdf5_key, rx_h5file / rx_checkpoint / parse_h5file   (465-591)
   transform_vars_ET_to_aurel_groups                                    (420-440)
-  iterations()                                                         (769-1070)
-  read_iterations()                                                    (1072-1177)
-  collect_overall_iterations()                                         (1179-1328)
-  get_content()                                                        (1330-1513)
+  iterations()                                                         (772-1071)
+  read_iterations()                                                    (1073-1182)
+  collect_overall_iterations()                                         (1184-1333)
+  get_content()                                                        (1335-1520)
+(line numbers of /repo 9f9bdbc; `iterations()` as of the fixes efae800 — the
+catalogue of a level is the SET of iterations of all its keys — and 9f9bdbc —
+the keys of the variable considered are selected by their parsed name;
+the `.par` parser of `parameters()` is in Model/ParFile.lean)
 
 Strings are `List Char` (`Str`).  Python semantics modelled literally:
 `str.split(sep)`, `sub in s`, `int(s)`, `repr(str)`, `str(list)`,
@@ -765,26 +769,21 @@ structure Proc where
 def natMax (l : List Nat) : Nat := l.foldl max 0
 def natMin (l : List Nat) : Nat := match l with | [] => 0 | x :: xs => xs.foldl min x
 
-/-- the line for refinement level `rl` (`none`: no key at this level) -/
+/-- the line for refinement level `rl` (`none`: no key at this level).
+`allits = np.sort(list({parse_hdf5_key(k)['it'] for k in keysrl}))`: the SET of
+the iterations of all keys of the level (every chunk, every selected
+variable), sorted.  Nothing in this block can raise any more (the type stays
+`Except Err` for `levelLines`; see `levelOne_never_raises`). -/
 def levelOne (fkeys : List (Str × KeyInfo)) (rl : Nat) : Except Err (Option Line) :=
   let keysrl := fkeys.filter fun k => k.2.rl == some rl
   match keysrl with
   | [] => .ok none
-  | k0 :: _ =>
-    let chosen : Except Err Str := match k0.2.c with
-      | some _ =>
-        if keysrl.any (fun k => k.2.c.isNone) then .error Err.typeError
-        else .ok ([' ', 'c', '='] ++ toDec (natMax (keysrl.filterMap fun k => k.2.c)))
-      | none => .ok []
-    match chosen with
-    | .error e => .error e
-    | .ok chosen =>
-      let keysrl := keysrl.filter fun k => isInfix chosen k.1
-      let allits := sortNat (keysrl.map fun k => k.2.it)
-      match allits with
-      | a :: b :: _ => .ok (some (Line.arange rl (natMin allits) (natMax allits) (b - a)))
-      | [x] => .ok (some (Line.single rl x))
-      | [] => .ok none
+  | _ :: _ =>
+    let allits := sortNat (dedup (keysrl.map fun k => k.2.it))
+    match allits with
+    | a :: b :: _ => .ok (some (Line.arange rl (natMin allits) (natMax allits) (b - a)))
+    | [x] => .ok (some (Line.single rl x))
+    | [] => .ok none
 
 /-- the per-level lines for the keys of the representative file; the lines of
 the levels before a failing one are already written when the exception occurs -/
@@ -818,6 +817,12 @@ def allFiles (S : Sim) : List (Str × List Str) :=
   (S.restarts.map fun d =>
     d.files.map fun h => (restartPath S.simpath S.simname d.nbr ++ h.name, h.keys)).flatten
 
+/-- `parse_hdf5_key(k) is not None and parse_hdf5_key(k)['variable'] == varkey` -/
+def isVarKey (varkey : Str) (k : Str) : Bool :=
+  match parseKey k with
+  | some i => i.var == varkey
+  | none => false
+
 /-- `if file_to_read:` … : the lines after the variables line, and the exception if any -/
 def dataCore (S : Sim) (found : Option (Bool × Str)) : List Line × Option Err :=
   match found with
@@ -828,10 +833,15 @@ def dataCore (S : Sim) (found : Option (Bool × Str)) : List Line × Option Err 
     match dget (allFiles S) f with
     | none => (l2, some .keyError)  -- OSError: file vanished
     | some keys =>
+      -- `varkey`: the variable of the first key that `rx_key` matches (h5py lists the keys in
+      -- alphabetical order).  When no key matches (or there is none) the selection below is empty and
+      -- `np.min([])` raises ValueError (`verbose=False`: `varkey` is not evaluated before).
       match keys.findSome? fun k => (parseKey k).map (·.var) with
-      | none => (l2, some (if keys == [] then .nameError else .typeError))
+      | none => (l2, some .valueError)
       | some varkey =>
-        let fk := keys.filter fun k => isInfix varkey k
+        -- [k for k in fkeys if parse_hdf5_key(k) is not None and parse_hdf5_key(k)['variable'] == varkey]
+        let fk := keys.filter (isVarKey varkey)
+        -- parse_hdf5_key(k)['it'] for k in fkeys (every selected key parses: `selection_never_raises`)
         match fk.mapM fun k => (parseKey k).map fun i => (k, i) with
         | none => (l2, some .typeError)
         | some fkeys =>
